@@ -100,6 +100,7 @@ class ResWorld(World):
                 "p3": {"station_id": "s0", "charger_id": "LEVEL_2", "price_kwh": "0.173"},  # same station as p1, other plug
                 "p4": {"station_id": "s0", "charger_id": "DCFC", "price_kwh": "0.0"},  # a plug that had a price becomes free of charge
                 "p5": {"station_id": "bs", "charger_id": "LEVEL_2", "price_kwh": "-0.041"},  # negative tariff (surplus power)
+                "p6": {"station_id": "s0", "charger_id": "LEVEL_2", "price_kwh": "0.0917"},  # re-states the price LEVEL_2 starts with (a flat tariff listed again)
             }
         if prices:
             # the grid side halves a plug's power at run time, at most once each
